@@ -423,6 +423,7 @@ pub fn main() {
         child_main(&case);
     }
     engine::install_hook();
+    engine::maybe_replay_many::<Case>(PROP, &args, exec);
     let started = std::time::Instant::now();
     if let Some(p) = &args.replay {
         let case: Case = engine::load_replay(p);
